@@ -81,3 +81,45 @@ def proper_kind_pairs():
     two bounds are the same infinity contains no real number and is outside the domain.
     """
     return [k for k in kind_pairs() if k not in (("+inf", "+inf"), ("-inf", "-inf"))]
+
+
+# ----------------------------------------------------------------------------- axioms of the uninterpreted functions
+from pyvc.contract import Contract as _Contract  # noqa: E402
+
+
+class FunctionAxiomsBase(_Contract):
+    """The ground axiom schemas of `pyvc/axioms.py` (exp, log, sqrt, cos, sin) are theorems about the real functions of
+    Mathlib (`lemmas/FunctionAxioms.lean`, re-checked by `lean` on every run); the ones about erf are in Convolution.lean
+    (C05).  What stays assumed is that numpy's / scipy's floating-point functions are these functions (floats as reals)."""
+
+    abstract = True
+    name = "FunctionAxioms"
+    target = None
+    strength = "U"
+    lemma_files = (__import__("pathlib").Path(__file__).resolve().parent.parent / "lemmas" / "FunctionAxioms.lean",)
+    trusted = ("Lean 4.33 kernel and Mathlib (Real.exp, Real.log, Real.sqrt, Real.cos, Real.sin); axioms propext, Classical.choice, Quot.sound",)
+    THEOREMS = {
+        "PyVC.ax_exp_pos": "axiom_exp_positive",
+        "PyVC.ax_exp_mul": "axiom_exp_a_times_exp_b_is_exp_of_the_sum",
+        "PyVC.ax_exp_zero": "axiom_exp_zero_is_one",
+        "PyVC.ax_exp_log": "axiom_exp_of_log_of_a_positive_number",
+        "PyVC.ax_log_exp": "axiom_log_of_exp",
+        "PyVC.ax_sqrt": "axiom_sqrt_squares_back_and_is_non_negative",
+        "PyVC.ax_cos_sin": "axiom_cos_squared_plus_sin_squared",
+        "PyVC.ax_cos_neg": "axiom_cos_even",
+        "PyVC.ax_sin_neg": "axiom_sin_odd",
+        "PyVC.ax_cos_zero": "axiom_cos_zero",
+        "PyVC.ax_sin_zero": "axiom_sin_zero",
+        "PyVC.ax_exp_strict_mono": "axiom_exp_strictly_increasing_and_injective",
+        "PyVC.ax_log_strict_mono": "axiom_log_strictly_increasing_and_injective_on_positive_numbers",
+        "PyVC.ax_log_one": "axiom_log_one_is_zero",
+        "PyVC.ax_log_sign": "axiom_sign_of_log",
+    }
+
+    def cases(self, tier):
+        return iter(())
+
+    def static_obligations(self, tier):
+        from pyvc.lean import check_lemmas
+
+        return check_lemmas(self.lemma_files[0], self.THEOREMS)
